@@ -94,3 +94,16 @@ Record clone_field := mkCloneField {
   cf_file : string;
   cf_line : Z
 }.
+
+(* a native function body (a Go func literal taking an otto.FunctionCall) that refers to a variable
+   of the function that created it, holding an object, runtime or Otto handle.  clone copies the
+   payload of a native function object as it is, so in a copy the closure still sees the TEMPLATE's
+   object / runtime. *)
+Record native_closure := mkClosure {
+  nc_func : string;    (* function that creates the closure *)
+  nc_file : string;
+  nc_line : Z;
+  nc_var : string;     (* captured variable *)
+  nc_type : string;    (* its type: a pointer to otto.object, otto.runtime, otto.Otto, a stash or a scope *)
+  nc_usage : string    (* strongest use inside the closure: "read" (field reads only) < "escape" < "call" < "store" *)
+}.
